@@ -52,3 +52,38 @@ _p("C19",
        "a float formula cannot be pinned without re-evaluating it, which CBMC does not share)",
        "normalize_angle for |a| > 1e3 and its equivalence modulo a full turn as a number (true only up to rounding)",
    ])
+_p("C13",
+   assumptions=COMMON_VERUS_ASSUMPTIONS,
+   not_covered=[])
+
+NOT_APPLICABLE = {
+    "C05": "quantifies over shard-worker thread schedules: Kani has no threads, Verus would need the code rewritten onto its permission-carrying primitives; no per-call contract expresses 'for every interleaving'",
+    "C06": "refinement between batch and simple trackers over all schedules plus deadlock freedom (std::thread, crossbeam channels, Mutex/Condvar): outside both verifiers; a whole-history/liveness property",
+    "C10": "multiset equality of distance-query results across worker schedules; the sequential fragments live inside the worker closure of handle_store_ops which neither tool can take",
+    "C14": "nms() is an iterator/closure pipeline over itertools::sorted_by and HashSet: one HashSet operation costs minutes in CBMC (2-box nms probe: no answer in 420 s) and three of its four statements are outside Verus's subset",
+    "C15": "the function is geo::BooleanOps::difference inside a rayon par_iter plus unsigned_area; no contract on Similari code expresses 'equals the uncovered fraction' without a verified polygon-clipping library",
+    "C17": "voting engines are into_group_map + HashMap/HashSet + &mut-capturing closures + pathfinding::kuhn_munkres: outside Kani's practical reach (measured) and outside Verus's language subset",
+    "C18": "compares a Python module with the Rust API: pyo3 glue is macro-generated with no Rust-level function to put a contract on, and there is no deductive verifier for the Python side",
+}
+KANI_PROPS = set()
+VERUS_INPLACE_PROPS = set()
+VERUS_EXTRACT_PROPS = set()
+
+
+def _fill_engine_sets():
+    import os, re
+    from . import kani, verus, extract
+    for u in kani.all_units():
+        for h in u.harnesses:
+            KANI_PROPS.update(p for p in h.props if p in PROPS)
+    for u in verus.all_units():
+        if u.mode == "inplace":
+            VERUS_INPLACE_PROPS.update(p for p in u.props if p in PROPS)
+    for u in extract.extract_units():
+        VERUS_EXTRACT_PROPS.update(p for p in u["props"] if p in PROPS)
+
+
+try:
+    _fill_engine_sets()
+except Exception:
+    pass
